@@ -297,6 +297,19 @@ func (c *c17) Run(cs core.Case) core.Result {
 	if p.Fmt == "par2" {
 		set = genP2Set(rng, 6, []string{"random", "random", "period", "zeros"}, false)
 		set.Blocks = []int{1, 3, 7, 15, 15, 20}[rng.Intn(6)]
+		if p.Seed%7 == 3 {
+			// two files of equal size whose first 16 KiB are the same bytes
+			// (same 16k hash, same length) and which differ behind that
+			head := scen.GenData(rng, "random", 16384, set.SliceSize)
+			tailLen := 100 + rng.Intn(5000)
+			for k := 0; k < 2; k++ {
+				d := append(append([]byte(nil), head...), scen.GenData(rng, "random", tailLen, set.SliceSize)...)
+				set.Files = append(set.Files, scen.File{Name: fmt.Sprintf("same-start-%d.bin", k), Data: d})
+			}
+			if set.SliceSize < 400 {
+				set.SliceSize = 2000
+			}
+		}
 		if p.Seed%5 == 0 {
 			// dozens of small files: IDs agreeing in their last byte(s) become likely,
 			// so the ordering of the recovery set is really exercised
